@@ -269,6 +269,7 @@ func checkNormalizer(p *core.Program, r *core.Report, R2 string) {
 	}
 	has := map[string]bool{}
 	mapEvaluated := false
+	var extra []string
 	core.EachInstr(fn, func(in ssa.Instruction) {
 		c := core.Common(in)
 		if c == nil {
@@ -324,8 +325,20 @@ func checkNormalizer(p *core.Program, r *core.Report, R2 string) {
 			has[`rm"-"`] = has[`rm"-"`] || okDash
 		case "strings.NewReplacer", "strings.Replace":
 			has["other"] = true
+		default:
+			if n := core.CalleeName(c); strings.HasPrefix(n, "strings.Trim") || n == "strings.Fields" || n == "strings.Title" || n == "strings.ToUpper" || n == "strings.TrimFunc" {
+				extra = append(extra, n)
+			}
 		}
 	})
+	{
+		key := "util.NormalizeSKI applies nothing else"
+		if len(extra) == 0 {
+			r.OK(R2, key, p.Pos(fn.Pos()), "only separator removal and case folding")
+		} else {
+			r.Fail(R2, key, p.Pos(fn.Pos()), fmt.Sprintf("the canonicalisation also applies %v: characters that belong to the SKI (e.g. leading '0' digits cut by a TrimLeft cutset) are removed, so the canonical form is no longer the certificate's 40 hex digits and distinct SKIs can collide", extra))
+		}
+	}
 	_ = mapEvaluated
 	// result must derive from the parameter
 	for _, w := range []struct{ k, what string }{{"lower", "lower-cases"}, {`rm" "`, "removes spaces"}, {`rm"-"`, "removes dashes"}} {
